@@ -21,6 +21,7 @@ type c04Step struct {
 }
 type c04In struct {
 	Buffered bool      `json:"buffered,omitempty"` // BufferedReadAhead (buf_size = maxBufLen > 1) instead of ImmediateReadAhead
+	NoHandler bool     `json:"no_handler,omitempty"` // no OnError callback is registered (a read error must still end the stream)
 	BufSize  int       `json:"buf_size"`
 	Script   []c04Step `json:"script"`
 	Stream   string    `json:"stream_hex"`
@@ -98,11 +99,15 @@ func c04Run(in c04In) (out c04Out) {
 	nerr := 0
 	if in.Buffered {
 		b := readahead.NewBuffered(rd, in.BufSize)
-		b.OnError(func(error) { nerr++ })
+		if !in.NoHandler {
+			b.OnError(func(error) { nerr++ })
+		}
 		ra = b
 	} else {
 		im := readahead.NewImmediate(rd, in.BufSize)
-		im.OnError(func(error) { nerr++ })
+		if !in.NoHandler {
+			im.OnError(func(error) { nerr++ })
+		}
 		ra = im
 	}
 	var toks, rets [][]byte
@@ -141,7 +146,10 @@ func c04Case(in c04In) Case {
 	if in.Buffered {
 		cname = "cb"
 	}
-	if out.Completed {
+	if out.Completed && in.NoHandler {
+		coq = fmt.Sprintf(cname+"q %d %s \"%s\" %s %s %d \"%s\"", in.BufSize, CoqList(scr), in.Stream,
+			q(out.Ret), q(out.End), out.Rae, out.Del)
+	} else if out.Completed {
 		coq = fmt.Sprintf(cname+" %d %s \"%s\" %s %s %d %d \"%s\"", in.BufSize, CoqList(scr), in.Stream,
 			q(out.Ret), q(out.End), out.Nerr, out.Rae, out.Del)
 	} else {
@@ -203,6 +211,9 @@ func c04Case(in c04In) Case {
 		tags = append(tags, "crlf")
 	}
 	tags = append(tags, fmt.Sprintf("bufsize=%d", in.BufSize))
+	if in.NoHandler {
+		tags = append(tags, "no-error-callback")
+	}
 	if in.Buffered {
 		tags = append(tags, "scanner=buffered")
 	} else {
@@ -359,6 +370,7 @@ func c04Gen(r *Rng, n int, tier string) []Case {
 				in.BufSize = 2
 			}
 		}
+		in.NoHandler = r.Chance(1, 5)
 		cases = append(cases, c04Case(in))
 	}
 	return cases
